@@ -90,6 +90,48 @@ func envRecvImpl(comp bool, max int, tail string, flat []byte, cuts []int, withD
 	return connect.VerifEnvelopeRecvAll(rd, rawCodec{}, nd, nc, max, len(flat)/5+2)
 }
 
+// envDrainImpl: drainUpTo (the library's bounded drain, F43) on a scripted transport.
+func envDrainImpl(limit int, tail string, flat []byte, cuts []int, withData bool) string {
+	rd := &scriptReader{chunks: segment(append([]byte(nil), flat...), cuts), tail: tailError(tail), withData: withData}
+	atEnd, err := connect.VerifDrain(rd, int64(limit))
+	switch {
+	case err != nil && atEnd:
+		return "atEnd-and-error"
+	case err != nil:
+		var ce *connect.Error
+		if errors.As(err, &ce) {
+			return fmt.Sprintf("failed:coded:%d:%d", ce.Code(), b2i(errors.Is(err, io.EOF)))
+		}
+		if errors.Is(err, io.ErrUnexpectedEOF) {
+			return "failed:ueof"
+		}
+		if err == io.EOF {
+			return "failed:eof"
+		}
+		return "failed:err"
+	case atEnd:
+		return "atEnd"
+	}
+	return "more"
+}
+
+// envDrainOp runs one env.drain op; its own oracle (C03): the answer is that of delivering the
+// same bytes in one piece with the end reported separately.
+func envDrainOp(c *Ctx, op string) string {
+	c.Begin(op)
+	a := kvArgs(strings.Fields(op))
+	limit, _ := strconv.Atoi(a["limit"])
+	ans := safely(func() string {
+		return envDrainImpl(limit, a["tail"], unhx(a["flat"]), parseCuts(a["seg"]), a["wd"] == "1")
+	})
+	whole := safely(func() string { return envDrainImpl(limit, a["tail"], unhx(a["flat"]), nil, false) })
+	c.Count("drain:" + strings.SplitN(ans, ":", 2)[0])
+	if ans != whole {
+		c.Fail("segmentation-dependent-drain", op, ans, "the drain's verdict differs from that of one-piece delivery with the end reported separately, which is: "+whole)
+	}
+	return ans
+}
+
 // envRecvOp runs one env.recv op and returns the canonical answer.
 func envRecvOp(c *Ctx, op string) string {
 	c.Begin(op)
@@ -143,6 +185,8 @@ func envOp(c *Ctx, op string) string {
 	var ans string
 	if strings.HasPrefix(op, "env.write") {
 		ans = envWriteOp(c, op)
+	} else if strings.HasPrefix(op, "env.drain") {
+		ans = envDrainOp(c, op)
 	} else {
 		ans = envRecvOp(c, op)
 	}
@@ -292,6 +336,27 @@ func streamSeg(c *Ctx) {
 	}
 	largeLastMessageProbe(c, "seg-large-message")
 	afterOversizeProbes(c)
+	// the bounded drain (F43): every body length around every limit x every segmentation x both
+	// ways of reporting the end x every kind of end
+	for n := 0; n <= 5; n++ {
+		body := []byte{1, 2, 3, 4, 5}[:n]
+		for limit := 0; limit <= n+1; limit++ {
+			for mask := 0; mask < 1<<uint(maxInt(n-1, 0)); mask++ {
+				var cuts []int
+				for i := 1; i < n; i++ {
+					if mask&(1<<uint(i-1)) != 0 {
+						cuts = append(cuts, i)
+					}
+				}
+				for _, tail := range []string{"eof", "ueof", "err", "coded:14:1"} {
+					for _, wd := range []bool{false, true} {
+						envOp(c, fmt.Sprintf("env.drain limit=%d tail=%s flat=%s seg=%s wd=%d", limit, tail, hx(body), showCuts(cuts), b2i(wd)))
+					}
+				}
+			}
+		}
+	}
+	discardBoundaryProbe(c)
 	r := c.Rng
 	exhaustLen := 13
 	if c.Thorough() {
@@ -399,6 +464,43 @@ func segCheck(c *Ctx, op string) {
 	c.Count("tail:" + strings.SplitN(a["tail"], ":", 2)[0])
 	if ans != whole {
 		c.Fail("segmentation-dependent", op, ans, "outcome differs from one-piece delivery, which gives: "+whole)
+	}
+}
+
+func maxInt(a, b int) int {
+	if a > b {
+		return a
+	}
+	return b
+}
+
+// discardBoundaryProbe (C03, F43, oracle only): the real thing. A gRPC response whose first
+// message the codec rejects, a tail of about 4 MiB (the drain's budget) behind it, the server's
+// error in the HTTP trailers - which a transport fills in when it reports the end of the body:
+// what the client reports must not depend on whether that end comes with the last bytes or
+// after them, nor on the size of the reads.
+func discardBoundaryProbe(c *Ctx) {
+	const budget = 4 << 20
+	for _, tailLen := range []int{budget - 1, budget, budget + 1, budget + 2} {
+		desc := fmt.Sprintf("gRPC response: a message the codec rejects, then %d more bytes (the drain reads %d), Grpc-Status 7 in the HTTP trailers", tailLen, budget)
+		c.Count("probe-discard-boundary")
+		body := frame(0, []byte{0xEE, 1, 2})
+		body = append(body, envPrefix(0, tailLen-5)...)
+		body = append(body, make([]byte, tailLen-5)...)
+		run := func(shape transportShape) string {
+			return safely(func() string {
+				sc := &shapedClient{status: 200, header: http.Header{"Content-Type": {"application/grpc+raw"}}, trailer: http.Header{"Grpc-Status": {"7"}, "Grpc-Message": {"nope"}}, body: body, shape: shape}
+				cl := connect.NewClient[[]byte, []byte](sc, "http://h/s/m", connect.WithGRPC(), connect.WithCodec(rawCodec{"raw"}))
+				_, err := cl.CallUnary(context.Background(), connect.NewRequest(&[]byte{1}))
+				return codeName(err)
+			})
+		}
+		ref := run(transportShape{chunk: 0, eofWithData: false})
+		for _, shape := range []transportShape{{chunk: 0, eofWithData: true}, {chunk: 65536, eofWithData: true}, {chunk: 4096, eofWithData: false}} {
+			if got := run(shape); got != ref {
+				c.Fail("segmentation-dependent-trailers", desc, fmt.Sprintf("reads of %d bytes, end with the last bytes=%v: %s | one piece, end reported separately: %s", shape.chunk, shape.eofWithData, got, ref), "what the client reports depends on how the transport delivers the end of the body")
+			}
+		}
 	}
 }
 
